@@ -363,10 +363,13 @@ def _check_fit_rest(chk, fi, fm, f, c, _try, feasibility_evaluated: bool = False
     consts = {nm: f.try_fold(astq.first_assign(fi.node, nm)) for nm in ("max_pdb_serial", "max_pdb_residue") if astq.first_assign(fi.node, nm) is not None}
     alpha = f.try_fold(astq.first_assign(fi.node, "available_chain_ids")) if astq.first_assign(fi.node, "available_chain_ids") is not None else None
     ok = consts == {"max_pdb_serial": c["max_serial"], "max_pdb_residue": c["max_resseq"]}
-    chk.expect(ok, "limits", fi.where, "limits fold to 99999 / 9999", f"fit_to_pdb limits fold to {consts}", K(fi, "limits"), expected={"max_pdb_serial": c["max_serial"], "max_pdb_residue": c["max_resseq"]}, found=consts)
+    # when the refusals were evaluated the limits are the values they compare with (recorded there); the named locals are only one
+    # way of writing them (module constants, literals in place are others)
+    (chk.expect if not feasibility_evaluated else (lambda *a, **k: None))(ok, "limits", fi.where, "limits fold to 99999 / 9999", f"fit_to_pdb limits fold to {consts}", K(fi, "limits"), expected={"max_pdb_serial": c["max_serial"], "max_pdb_residue": c["max_resseq"]}, found=consts)
     ok = isinstance(alpha, list) and len(alpha) == c["max_chains"] and len(set(alpha)) == len(alpha) and all(isinstance(x, str) and len(x) == 1 for x in alpha)
     mc = astq.first_assign(fi.node, "max_pdb_chains")
-    chk.expect(ok and mc is not None and norm(mc) == "len(available_chain_ids)", "chain-alphabet", fi.where, "62 distinct one-character chain ids; the chain limit is the alphabet size", "the chain alphabet is not 62 distinct single characters with max_pdb_chains = its length", K(fi, "alphabet"), found=len(alpha) if isinstance(alpha, list) else None)
+    alphabet_evaluated = "chain-alphabet" in getattr(chk, "_decided", ())
+    (chk.expect if not alphabet_evaluated else (lambda *a, **k: None))(ok and mc is not None and norm(mc) == "len(available_chain_ids)", "chain-alphabet", fi.where, "62 distinct one-character chain ids; the chain limit is the alphabet size", "the chain alphabet is not 62 distinct single characters with max_pdb_chains = its length", K(fi, "alphabet"), found=len(alpha) if isinstance(alpha, list) else None)
     from sa.defuse import Inliner
 
     inl = Inliner(fi.node)
